@@ -141,7 +141,7 @@ Print Assumptions c05_eng_guard_is_resolved.
 
 Example c05_vx_example :
   let cs := [ {| has_cond := true; holds := false |}; {| has_cond := false; holds := false |} ] in
-  let s := run xst (xstep cs) (xinit 2) [1;1;0;2;2;0;1; 4;4; 0;0; 0]%nat in
+  let s := run xst (xstep cs) (xinit 2) [1;1;0;2;2;2;0;1;1; 4;4;4; 0;0; 0]%nat in
   XReach cs s /\ vinvoked (xv s) = 1%nat /\ vended (xv s) = true.
 Proof. exact af_vx_example. Qed.
 
